@@ -37,6 +37,7 @@ class World:
         self.eval_hook = None
         self.fds: dict[int, str] = {}
         self.mtimes: dict[str, float] = {}
+        self.mtime_granularity = 0.0
 
     def point(self, kind, detail=""):
         s = self.sched
@@ -49,6 +50,13 @@ class World:
 
     def stat(self, key, n=1):
         self.stats[key] = self.stats.get(key, 0) + n
+
+    def set_mtime(self, base):
+        """A file's modification time = simulated wall clock at the write, rounded down to the
+        file system's timestamp granularity (knob: exact, 1 s, 2 s as on FAT)."""
+        t = self.clock.time()
+        g = self.mtime_granularity
+        self.mtimes[base] = (t // g) * g if g else t
 
     def current_proc(self):
         """Identity of the simulated operating-system process that is running."""
@@ -213,7 +221,7 @@ class SimFileIO(io.FileIO):
         WORLD.point("write", f"{self._sim_base}:{len(b)}")
         WORLD.stat("write_calls")
         if WORLD.clock is not None:
-            WORLD.mtimes[self._sim_base] = WORLD.clock.time()
+            WORLD.set_mtime(self._sim_base)
         n = super().write(b)
         if n != len(b):
             raise HarnessError("short write on scratch file system")
@@ -380,7 +388,7 @@ class OsProxy:
             WORLD.point("write", f"{WORLD.fds[fd]}:{len(data)}")
             WORLD.stat("write_calls")
             if WORLD.clock is not None:
-                WORLD.mtimes[WORLD.fds[fd]] = WORLD.clock.wall
+                WORLD.set_mtime(WORLD.fds[fd])
         return os.write(fd, data)
 
     def read(self, fd, n):
@@ -482,6 +490,13 @@ def run_atexit(group):
             fn(*a, **k)
         except Exception as e:  # noqa: BLE001
             errors.append((type(e).__name__, str(e)[:300]))
+    # weakref.finalize objects created with atexit=True also run at interpreter exit
+    import weakref
+
+    try:
+        weakref.finalize._exitfunc()
+    except Exception as e:  # noqa: BLE001
+        errors.append((type(e).__name__, str(e)[:300]))
     return errors
 
 
